@@ -930,8 +930,10 @@ def unit_class(u):
     from cryptoparser.tls.rdp import TPKT
     from cryptoparser.tls.openvpn import OpenVpnPacketWrapperTcp
     from cryptoparser.tls.postgresql import SslRequest, Sync
+    from cryptoparser.tls.record import SslRecord
+    from cryptoparser.ssh.record import SshRecordInit
     return {'tlsrecord': TlsRecord, 'hskex': TlsHandshakeServerKeyExchange, 'mysql': MySQLRecord, 'tpkt': TPKT,
-            'ovpn': OpenVpnPacketWrapperTcp, 'pgssl': SslRequest, 'pgsync': Sync}[u]
+            'ovpn': OpenVpnPacketWrapperTcp, 'pgssl': SslRequest, 'pgsync': Sync, 'ssl2': SslRecord, 'sshpkt': SshRecordInit}[u]
 
 
 def show_frame(u, obj):
@@ -947,6 +949,10 @@ def show_frame(u, obj):
         return ';' + hx(obj.payload)
     if u in ('pgssl', 'pgsync'):
         return ';'
+    if u == 'ssl2':
+        return '%d;%s' % (int(obj.message.get_message_type()), hx(obj.message.compose()))
+    if u == 'sshpkt':
+        return ';' + hx(obj.packet.compose())
     raise KeyError(u)
 
 
